@@ -142,10 +142,10 @@ func c16Elementwise(c *core.Ctx, fam, op string) {
 	for _, t := range types {
 		for _, form := range forms {
 			for _, mode := range modes {
-				if mode == "reuseB" && form != "TT" {
+				if (mode == "reuseB" || mode == "incrB") && form != "TT" {
 					continue
 				}
-				if mode == "incr" && (op == "MinBetween" || op == "MaxBetween") {
+				if (mode == "incr" || mode == "incrB") && (op == "MinBetween" || op == "MaxBetween") {
 					continue
 				}
 				dests := []string{""}
